@@ -193,6 +193,13 @@ func customDoc(r *rand.Rand) *etree.Document {
 	v, _ := RandValue(r)
 	root.CreateElement("Extra").SetText(v)
 	root.CreateElement("Big").SetText(strings.Repeat("z", r.IntN(5000)))
+	if r.IntN(6) == 0 {
+		// a large message (a long IDPList or Extensions block): tens to hundreds of kilobytes, of no particular alignment
+		big := root.CreateElement("samlp:Extensions")
+		for n := 0; n < 20000+r.IntN(300000); n += 37 {
+			big.CreateElement("Entry").CreateAttr("v", fmt.Sprintf("%029d", n))
+		}
+	}
 	if r.IntN(2) == 0 {
 		d.Indent(2)
 	}
